@@ -288,6 +288,8 @@ impl IndexBase for ColumnIndex {
     fn merge_parallel(&mut self, cols: &[ColumnId], table: WrappedTableRef, subset: SubsetRef) {
         const BATCH_SIZE: usize = 1024;
         let shard_data = self.shard_data;
+        #[cfg(feature = "verif-hooks")]
+        egglog_concurrency::verif::probe("index_merge_parallel");
         let mut queues = IdVec::<ShardId, Mutex<Vec<(RowId, TaggedRowBuffer)>>>::with_capacity(
             shard_data.n_shards(),
         );
@@ -733,6 +735,8 @@ impl IndexBase for TupleIndex {
 
         const BATCH_SIZE: usize = 1024;
         let shard_data = self.shard_data;
+        #[cfg(feature = "verif-hooks")]
+        egglog_concurrency::verif::probe("index_merge_parallel");
         let mut queues = IdVec::<ShardId, Mutex<Vec<(RowId, TaggedRowBuffer)>>>::with_capacity(
             shard_data.n_shards(),
         );
